@@ -9,7 +9,7 @@ LEVEL = 'proof'
 RULE = ('corpus; exhaustive binary scope (close_holes: every binary image of every shape up to 3x4 with the cross and the '
         'box; hitmiss: 3x3 / 1x3 / 3x1 templates over {0,1,2} against every binary image up to 3x4 - thorough all 19683+27+27 '
         'templates, quick a seeded slice of the 3x3 ones); random 1-3 D x 9 integer dtypes + float32/float64 (palettes of 2-4 '
-        'values: ties and plateaus, dtype limits, infinities) x 7 layouts x cross/box (and some irregular) neighbourhoods. '
+        'values: ties and plateaus, dtype limits, infinities) x 7 layouts x cross/box (and some irregular) neighbourhoods; a few 18-40 px images (long floods, many skipped rows). '
         'Non-trivial = output neither all-true nor all-false; distinct = distinct protocol line + layout.')
 ASSUMPTIONS = ['no NaN (an order is taken); floats enter the Lean model through the order isomorphism '
                'x -> sign(x)*bits(|x|) onto integers (the kernels only compare values)',
@@ -165,7 +165,7 @@ def _eval_single(cases):
             f.append(dict(kind='property', key=f'{op}:input-modified', detail={}))
         res.append(dict(findings=f, nontrivial=bool(0 < sum(g) < len(g)), sig=line + case.get('layout', 'C'),
                         tags=dict(op=op, dtype=case['dtype'], ndim=len(case['shape']), layout=case.get('layout', 'C'),
-                                  nbhd=('regular' if regular else 'irregular'))))
+                                  nbhd=('regular' if regular else 'irregular'), size=case.get('size', 'small'))))
     return res
 
 
@@ -342,6 +342,33 @@ def _rand_hitmiss_case(rng):
                 layout=rng.choice(gen.LAYOUTS))
 
 
+def _large_case(rng, which):
+    """images large enough for long floods (hundreds of stack entries) and many rows of border skipping"""
+    h, w = rng.randint(18, 40), rng.randint(18, 40)
+    n = h * w
+    layout = rng.choice(gen.LAYOUTS)
+    if which == 'holes':
+        p = rng.choice([0.42, 0.5, 0.58])
+        data = [1 if rng.random() < p else 0 for _ in range(n)]
+        bshape, bc = rng.choice([([3, 3], CROSS), ([3, 3], BOX)])
+        return dict(op='close_holes', dtype='bool', shape=[h, w], data=data, bshape=bshape, bc=list(bc), layout=layout, size='large')
+    if which == 'reg':
+        dtype = rng.choice(['uint8', 'int32', 'float64', 'float32'])
+        pal = [1, 1, 1, 2, 3] if rng.random() < 0.5 else [0, 1]
+        data = []
+        while len(data) < n:
+            data += [rng.choice(pal)] * rng.randint(1, 9)
+        bshape, bc = rng.choice([([3, 3], CROSS), ([3, 3], BOX)])
+        return dict(op=rng.choice(['regmax', 'regmin']), dtype=dtype, shape=[h, w], data=data[:n], bshape=bshape, bc=list(bc),
+                    layout=layout, size='large')
+    A = np.array([1 if rng.random() < 0.5 else 0 for _ in range(n)]).reshape(h, w)
+    bshape = rng.choice([[3, 3], [5, 5], [1, 3], [3, 1], [7, 3]])
+    y, x = rng.randint(0, h - bshape[0]), rng.randint(0, w - bshape[1])
+    bc = [int(v) if rng.random() < 0.7 else 2 for v in A[y:y + bshape[0], x:x + bshape[1]].ravel().tolist()]
+    return dict(op='hitmiss', dtype='uint8', bcdtype='uint8', shape=[h, w], data=[int(v) for v in A.ravel().tolist()],
+                bshape=bshape, bc=bc, layout=layout, size='large')
+
+
 CROSS = [0, 1, 0, 1, 1, 1, 0, 1, 0]
 BOX = [1] * 9
 
@@ -387,6 +414,8 @@ def cases(rng, tier):
         out.append(_rand_holes_case(rng))
     for _ in range(nrand[2]):
         out.append(_rand_hitmiss_case(rng))
+    for i in range(dict(quick=12, thorough=90, search=30)[tier]):
+        out.append(_large_case(rng, ('holes', 'reg', 'hitmiss')[i % 3]))
     rng.shuffle(out)     # spread the heavy exhaustive blocks over the worker chunks (deterministic: same rng)
     return corpus + out
 
